@@ -309,6 +309,8 @@ def assumptions_for(kobs, kmeta):
     for o in kobs:
         for s in o.get("stubs") or []:
             a.add("kani::stub(%s) in %s" % (" -> ".join(x.strip() for x in s.split(",")), o["harness"]))
+        if o["kind"] == "native-check":
+            continue
         if o["kind"] == "K-bounded":
             a.add("bounded: %s (%s)" % (o["id"], o.get("bound", "see unwind")))
     gen = (kmeta.get("injected") or {}).get("generated") or {}
